@@ -242,9 +242,14 @@ fn check_inner(ctx: &Ctx, h: &History) -> Result<(), Fail> {
                     x
                 })
                 .collect();
-            let labels: Vec<String> = parts.iter().map(|p| format!("{} at p", p.1)).collect();
+            // two bundles in three carry a location of their own, which flattening puts in front of their members' locations
+            let located = first % 3 != 1;
+            let labels: Vec<String> = parts.iter().map(|p| if located { format!("{} at q/p", p.1) } else { format!("{} at p", p.1) }).collect();
             let mut spans: Vec<R> = parts.iter().map(|p| p.2).collect();
             let mut b = Error::multiple(parts.into_iter().map(|p| p.0).collect());
+            if located {
+                b = b.at("q");
+            }
             // every other bundle has a span of its own, which its span-less members inherit when the tree is flattened
             if first % 2 == 0 {
                 b = b.with_span(&pool(7));
@@ -286,7 +291,8 @@ fn check_inner(ctx: &Ctx, h: &History) -> Result<(), Fail> {
                 );
             }
             Op::HandleErr => {
-                let (e, l, sp) = fresh(1, &mut next);
+                // (the error handed to `handle` may itself be a bundle, with or without a span: one recorded error)
+                let (e, l, sp) = fresh(if i % 3 == 1 { 2 } else { 1 }, &mut next);
                 rec_spans.push(sp);
                 let r = acc!().handle(Err::<u16, Error>(e));
                 ensure!(
@@ -311,7 +317,7 @@ fn check_inner(ctx: &Ctx, h: &History) -> Result<(), Fail> {
                 );
             }
             Op::HandleInErr => {
-                let (e, l, sp) = fresh(1, &mut next);
+                let (e, l, sp) = fresh(if i % 3 == 2 { 3 } else { 1 }, &mut next);
                 rec_spans.push(sp);
                 let r = acc!().handle_in(|| Err::<u16, Error>(e));
                 ensure!(
